@@ -55,7 +55,7 @@ def gen_program(rng):
         elif k == "add":
             prog.append(("add", r, rng.choice(live), rng.choice(live))); nreg += 1; live.append(r)
         elif k == "mul":
-            m = rng.choice([0, 1, 1.0, 2, 3, 0.5, 2.5, 10, 1e-3, 7, 1.0000001]) if rng.random() < 0.7 \
+            m = rng.choice([0, 1, 1.0, 2, 3, 0.5, 2.5, 10, 1e-3, 7, 1.0000001, 1e-11, 3e-13, 1e9, 1e-6]) if rng.random() < 0.7 \
                 else gens.gen_count(rng, allow_zero=True)
             prog.append(("mul", r, m, rng.choice(live))); nreg += 1; live.append(r)
         elif k == "iadd":
@@ -208,10 +208,10 @@ def run_python(prog, tbl, formula, me):
                 bad.append("count of %s: expected %s got %s" % (kk, float(want.get(kk, 0)), got.get(kk)))
         masses = {kk: Fraction(pyside.atom_of((kk[0], kk[1], 0), tbl).mass) - kk[2] * me for kk in want}
         m = sum((want[kk] * masses[kk] for kk in want), Fraction(0))
-        if not close(float(m), o["mass"], rel=1e-9, abs_=1e-9):
+        if not close(float(m), o["mass"], rel=1e-9):
             bad.append("mass: expected %r got %r" % (float(m), o["mass"]))
         ch = sum((want[kk] * kk[2] for kk in want), Fraction(0))
-        if not close(float(ch), o["charge"], rel=1e-9, abs_=1e-9):
+        if not close(float(ch), o["charge"], rel=1e-9, abs_=1e-12 * float(sum(abs(want[kk] * kk[2]) for kk in want))):
             bad.append("charge: expected %r got %r" % (float(ch), o["charge"]))
         if m != 0 and o["massfrac"] != "ZeroDivisionError":
             tot = sum(c for _, c in o["massfrac"])
@@ -266,10 +266,12 @@ def compare(prog, obs, replies):
                 not all(close(a[1], b[1]) for a, b in zip(ma, o["atoms"])):
             return dict(stmt=idx, what="atoms", impl=o["atoms"], model=ma)
         mm = h2f(next(it))
-        if not close(mm, o["mass"], abs_=1e-9):
+        if not close(mm, o["mass"]):
             return dict(stmt=idx, what="mass", impl=o["mass"], model=mm)
         mc = h2f(next(it))
-        if not close(mc, o["charge"], abs_=1e-9):
+        # a sum with cancellation: tolerance relative to the size of its terms, not to 1
+        qscale = sum(abs(c * k[2]) for k, c in o["atoms"])
+        if not close(mc, o["charge"], abs_=1e-12 * qscale):
             return dict(stmt=idx, what="charge", impl=o["charge"], model=mc)
         mf = pyside.parse_alist(next(it))
         if o["massfrac"] == "ZeroDivisionError":
@@ -321,6 +323,19 @@ def check_programs(run: Run, progs, tbl, formula, me):
                               dict(program=p, statement=d["stmt"]))
 
 
+_PRIV = []
+
+
+def _private_table():
+    if not _PRIV:
+        from periodictable import core, mass, density
+        t = core.PeriodicTable("c02-private")
+        mass.init(t)
+        density.init(t)
+        _PRIV.append(t)
+    return _PRIV[0]
+
+
 def type_boundaries(run: Run, tbl, formula):
     """multipliers and counts of every numeric type mean the same number; a multiplier that is not a number
     (a string, bytes, None, a list) is refused with TypeError and no formula is returned"""
@@ -348,6 +363,20 @@ def type_boundaries(run: Run, tbl, formula):
                 continue
             if set(got) != set(ref) or any(not close(got[k], float(ref[k])) for k in ref):
                 run.violation("n*f with a %s multiplier differs from the same number as a Python float" % label, inp)
+        # formula(f, table=T), f.change_table-free: the operand keeps its own atoms
+        own = [(id(a), a.table) for a in f.atoms]
+        sk = pyside.struct_keys(f.structure)
+        for kw in (dict(table=_private_table()), dict(table=tbl, name="x", density=1.5)):
+            try:
+                g2 = formula(f, **kw)
+            except Exception as e:  # noqa
+                run.violation("formula(f, %s) raised %s" % (", ".join(sorted(kw)), type(e).__name__), inp)
+                continue
+            if [(id(a), a.table) for a in f.atoms] != own or pyside.struct_keys(f.structure) != sk or g2 is f \
+                    or f.name == "x" or (f.density == 1.5 and len(f.atoms) != 1):
+                run.violation("formula(f, %s) changed its operand f (atoms now of table %r)"
+                              % (", ".join(sorted(kw)), sorted({a.table for a in f.atoms})), inp)
+                break
         for bad in ("2", "0.5", b"2", None, [2], "x"):
             try:
                 g = bad * f
